@@ -14,18 +14,24 @@
 (***************************************************************************)
 EXTENDS LoadUniverse, Json
 
-CONSTANTS KnownDev
+CONSTANTS KnownDev,
+          WithIntro,   \* also emit the introspection view of the final schema (C17)
+          SetIds       \* which definition sets to arrange
 
 DQ1 == ObjectD("Query", <<>>, <<FieldD("n", I, <<>>), FieldD("a", Named("A"), <<>>)>>)
 DA1 == ObjectD("A", <<>>, <<FieldD("x", S, <<>>), FieldD("e", Named("E"), <<>>)>>)
 DATag == WithDirs(ObjectD("A", <<>>, <<FieldD("x", S, <<>>)>>), <<DU("tag", <<>>)>>)
 DETag == EnumD("E", <<EV("P"), [EV("Q") EXCEPT !.dirs = <<DU("tag", <<AV("v", IntV(2))>>)>>]>>)
+DBTagNull == WithDirs(ObjectD("B", <<>>, <<FieldD("k", I, <<>>)>>), <<DU("tag", <<AV("v", NullV)>>)>>)   \* an explicit null is not the default
+DN2 == InterfaceD("N2", <<FieldD("id", Named("ID"), <<>>)>>)
+DB2 == ObjectD("B", <<"N", "N2">>, <<FieldD("name", S, <<>>), FieldD("id", Named("ID"), <<>>)>>)
 
 Sets ==
   [ s1 |-> <<DQuery, DA, DB, DN>>,
     s2 |-> <<DQuery, DA, DB, DN, DU1>>,
     s3 |-> <<DQ1, DA1, DE, DIn, DMut>>,
-    s4 |-> <<DTag, DQ1, DATag, DETag>>,
+    s4 |-> <<DTag, DQ1, DATag, DETag, DBTagNull>>,
+    s8 |-> <<ObjectD("Query", <<>>, <<FieldD("b", Named("B"), <<>>)>>), DN, DN2, DB2>>,   \* an object implementing two interfaces
     s5 |-> <<DSchemaQ, DQ1, DA1, DE>>,
     s6 |-> <<DQ1, DA1, DE, FIface, DN>>,          \* invalid: Z does not provide N.name
     s7 |-> <<DQ1, DA1, FInOut, DE>> ]              \* invalid: input field of object type
@@ -55,9 +61,10 @@ RECURSIVE Run(_, _, _, _)
 Run(s, docs, i, acc) ==
   IF i > Len(docs) THEN acc
   ELSE LET r == LoadResult(s, docs[i], {}) IN
-       Run(r.s, docs, i + 1, Append(acc, [doc |-> docs[i], ok |-> r.ok, why |-> r.why, off |-> r.off, canon |-> Canon(r.s)]))
+       Run(r.s, docs, i + 1, Append(acc, [doc |-> docs[i], ok |-> r.ok, why |-> r.why, off |-> r.off, canon |-> Canon(r.s)]
+                                             @@ (IF WithIntro /\ i = Len(docs) /\ r.ok THEN [intro |-> Intro(r.s)] ELSE <<>>)))
 
-AInit == phase = "set" /\ setid \in DOMAIN Sets /\ base = <<>> /\ hist = <<>>
+AInit == phase = "set" /\ setid \in SetIds /\ base = <<>> /\ hist = <<>>
 \* step 1: permute (optionally after moving one member into an extend block)
 Permute ==
   /\ phase = "set" /\ phase' = "perm"
